@@ -655,14 +655,16 @@ class Interp:
         name = f"{fr.fn.ref.qualname}/loop{self.task.loop_ordinal(fr.fn.ref, s)}"
         view0 = self.loop_view(fr, None)
         self.check_inv(st, spec, view0, f"{name}/inv-init")
+        entry = self._entry_snapshot(fr)  # as for `for` loops: the invariant may refer to `at_entry` / `trace_mark_`
         self.havoc_loop(st, s, spec, fr)
-        view = self.loop_view(fr, None)
+        view = self.loop_view(fr, None, None, entry)
         self.assume_inv(st, spec, view)
         watched = self._watch_lists(s, spec, fr)
         if self.truth(st, self.eval(st, s.test, fr)):
-            d0 = spec.decreases(self.loop_view(fr, None)) if spec.decreases else None
+            d0 = spec.decreases(self.loop_view(fr, None, None, entry)) if spec.decreases else None
             if d0 is not None:
                 st.oblige(f"{name}/decreases-bounded", V._cmp(">=", d0, 0), "termination")
+            mark = len(st.trace)
             try:
                 self.exec_block(st, s.body, fr)
             except _Break:
@@ -671,7 +673,7 @@ class Interp:
             except _Continue:
                 pass
             self._check_watched(watched, name)
-            v2 = self.loop_view(fr, None)
+            v2 = self.loop_view(fr, None, None, entry, mark)
             self.check_inv(st, spec, v2, f"{name}/inv-preserve")
             if d0 is not None:
                 st.oblige(f"{name}/decreases", V._cmp("<", spec.decreases(v2), d0), "termination")
@@ -867,6 +869,7 @@ class Interp:
             self.assign_target(st, s.target, elem, fr)
             mark = len(st.trace)
             st.ghost["loop_elem"] = elem
+            st.ghost["loop_index"] = i  # ghost: the index of the arbitrary iteration (read-only, contract side)
             try:
                 self.exec_block(st, s.body, fr)
             except _Break:
@@ -1302,11 +1305,42 @@ class Interp:
             return x is None
         if isinstance(a, (bool, SBool)) and isinstance(b, (bool, SBool)):
             return self.equals(st, a, b)
+        if isinstance(a, SOpaque) and isinstance(b, SOpaque) and a.kind == b.kind and self._opaque_eq_hook(a) is not None:
+            # identity of two individuals of a kind whose `==` is coarser than identity (protocol hook `py_eq`,
+            # see equals): `is` stays identity -- CPython never calls __eq__ for `is`
+            return mk_bool(a.e == b.e)
         if isinstance(a, SOpaque) or isinstance(b, SOpaque):
             return self.equals(st, a, b)
         if isinstance(a, SAtom) or isinstance(b, SAtom):
             return self.equals(st, a, b)
         return a is b
+
+    @staticmethod
+    def _opaque_eq_hook(x):
+        from .api import PROTOCOLS
+
+        return getattr(PROTOCOLS.get(x.kind), "py_eq", None)
+
+    def _seq_equals(self, st, a, b):
+        """`a == b` for two sequences of the same Python type (both lists: LRef, or both tuples: tuple / SSeq) of
+        which at least one has a symbolic length: equal lengths and pairwise equal elements, which is what CPython's
+        list.__eq__ / tuple.__eq__ compute (element test `x is y or x == y`: `equals` is reflexive on the scalar
+        values admitted here).  Only scalar elements (opaque individuals, ints, bools, atoms) are admitted: an
+        element comparison must not fork inside the quantifier.  Cross-check: spec/xcheck_cases.py x_seq_eq."""
+        na, nb = Q.seq_len(a), Q.seq_len(b)
+
+        def elem(j):
+            x, y = Q.seq_get(a, j), Q.seq_get(b, j)
+            for v in (x, y):
+                if not (isinstance(v, (SOpaque, SInt, SBool, SAtom, int, bool, str)) or v is None):
+                    raise Unsupported(f"equality of symbolic sequences with elements of type {type(v).__name__}")
+            return self.equals(st, x, y)
+
+        if isinstance(na, int) and isinstance(nb, int) and na != nb:
+            return False
+        # (a concrete length, if there is one, bounds the element comparison: no read beyond a concrete sequence)
+        bound = nb if isinstance(nb, int) else na
+        return both(V._cmp("==", na, nb) if V.is_sym(na) or V.is_sym(nb) else na == nb, V.forall(0, bound, elem))
 
     def equals(self, st, a, b):
         if isinstance(a, SOpt) and b is not None:
@@ -1333,6 +1367,11 @@ class Interp:
                     for j, c in enumerate(y.seq):
                         r = both(r, self.equals(st, Q.seq_get(x, j), c))
                     return r
+            if isinstance(a, LRef) != isinstance(b, LRef):
+                if all(isinstance(x, (LRef, SSeq, tuple)) for x in (a, b)):
+                    return False  # a list never equals a tuple
+            elif all(isinstance(x, (LRef, SSeq, tuple)) for x in (a, b)):
+                return self._seq_equals(st, a, b)
             raise Unsupported("equality of symbolic sequences")
         if getattr(a, "is_text", False) or getattr(b, "is_text", False):
             # a modelled text against a text or a str/bytes literal: same kind, same length, same elements;
@@ -1344,6 +1383,13 @@ class Interp:
                     raise Unsupported(f"equality of a text and {type(b if getattr(a, 'is_text', False) else a).__name__}")
                 return False
             return text_eq(a, b)
+        if isinstance(a, SOpaque) and isinstance(b, SOpaque) and a.kind == b.kind:
+            # `==` of two individuals of a kind whose protocol declares its own equality (`py_eq(st, a, b)`: an
+            # equivalence that contains identity, e.g. bound methods of the same function and object are equal
+            # without being the same object); `is` keeps comparing identities (see is_)
+            h = self._opaque_eq_hook(a)
+            if h is not None:
+                return h(st, a, b)
         for x, y in ((a, b), (b, a)):
             # an opaque individual compared with a plain constant: the protocol may answer (`eq_const`), e.g. an
             # abstract key event that may or may not be the string "esc"; without the hook: unequal, as before
@@ -1460,6 +1506,11 @@ class Interp:
                 r = self.call(st, self.getattr(st, v, dunder), [])
                 return self.truth(st, r) if dunder == "__bool__" else self.truth(st, V._cmp("!=", r, 0) if isinstance(r, Sym) else r != 0)
             return True
+        if isinstance(v, SExc) and "__bool__" in v.attrs:
+            # CPython: truth of an instance is __bool__(), else __len__() != 0, else True.  BaseException defines
+            # neither, but a subclass may (an error collection with __len__): whoever models the exception value may
+            # give its truth value as the modelled attribute `__bool__` (a symbolic bool = "unknown class")
+            return self.truth(st, v.attrs["__bool__"])
         if isinstance(v, (SOpaque, FnVal, Method, SSlice, SExc)):
             t = getattr(v, "meta", {}).get("truth") if isinstance(v, SOpaque) else None
             if t is not None:
@@ -1510,6 +1561,9 @@ class Interp:
                 return None
             if name == "with_traceback":
                 return Method(obj, "with_traceback")
+            if name in (getattr(obj, "attrs", None) or {}):
+                # instance attributes given by whoever modelled the raise (e.g. `errno` of an OSError-like exception)
+                return obj.attrs[name]
             raise Unsupported(f"exception attribute {name}")
         if isinstance(obj, SInt) and name == "to_bytes":
             return Method(obj, name)  # int.to_bytes(1, order): see call_method
